@@ -266,6 +266,7 @@ class UndirectedMultigraph : private LabeledUndirectedGraph<EdgeMultiplicity> {
             adjacencyList[i].clear();
         edgeNumber = 0;
         totalEdgeNumber = 0;
+        edgeLabels.clear();
     }
 
     /// @copydoc DirectedMultigraph::asLabeledGraph
